@@ -15,6 +15,8 @@ ENGINES["C13"] = "engine_clock"
 ENGINES["C16"] = "engine_signals"
 ENGINES["C17"] = "engine_stats"
 ENGINES["C09"] = "engine_pcm"
+for _p in ("C08", "C14", "C19"):
+    ENGINES[_p] = "engine_session"
 ENGINES["C10"] = "engine_sizer"
 ENGINES["C11"] = "engine_sizer"
 
